@@ -53,3 +53,54 @@ Proof.
   apply Opt. split; [exact V|discriminate].
 Qed.
 Print Assumptions C10_ext_le_base_unordered.
+
+(** unordered <= ordered, and the single-family collapse (Proofs/CrossProofs.v) *)
+From SR Require Import Proofs.CrossProofs.
+
+(* any valid ordered solution can be turned into a valid unordered one on the same species mapping
+   that costs no more *)
+Theorem C10_unordered_le_ordered : forall S c ord O t,
+  0 <= c_sloss c -> NoDup ord -> leaves_ord S ord O -> valid_ordered S ord O t ->
+  exists u, uvalid S O u /\ forget u = forget t /\ ele (ucost c O u) (tcost c ord O t).
+Proof. exact unordered_le_ordered. Qed.
+Print Assumptions C10_unordered_le_ordered.
+
+(* hence what the unordered solver returns never costs more than what the ordered one returns
+   (same variant, base or extended) *)
+Theorem C10_uspfs_le_spfs : forall S c extended orders O E e u lt,
+  nn (c_hgt c) -> coherent_ord c -> orders_ok S O orders -> leaves_ok S O ->
+  uspfs S c RALL extended O = Some E -> spfs S c RALL extended orders O = Some e ->
+  In u (tags E) -> In lt (tags e) -> ele (ucost c O u) (cost_of c O lt).
+Proof. exact uspfs_le_spfs. Qed.
+Print Assumptions C10_uspfs_le_spfs.
+
+(* every leaf carries the same single family: the ordered, unordered and plain DTL optima coincide ... *)
+Theorem C10_single_family_collapse : forall S c f orders O,
+  nn (c_hgt c) -> coherent_ord c -> single_fam f O -> leaves_ok S O ->
+  (forall ord, In ord orders <-> ord = [f]) ->
+  forall e E lt u r,
+  spfs S c RALL true orders O = Some e -> uspfs S c RALL true O = Some E ->
+  In lt (tags e) -> In u (tags E) -> In r (tags (reconcile_thl S c RALL O)) ->
+  cost_of c O lt = cost c O r /\ ucost c O u = cost c O r /\ cost_of c O lt = ucost c O u.
+Proof. exact single_family_solvers_collapse. Qed.
+Print Assumptions C10_single_family_collapse.
+
+(* ... and the base variants equal the LCA reconciliation cost *)
+Theorem C10_single_family_base : forall S c f orders O,
+  nn (c_hgt c) -> coherent_ord c -> single_fam f O -> leaves_ok S O ->
+  (forall ord, In ord orders <-> ord = [f]) ->
+  forall e E lt u,
+  spfs S c RALL false orders O = Some e -> uspfs S c RALL false O = Some E ->
+  In lt (tags e) -> In u (tags E) ->
+  cost_of c O lt = cost c O (lca_rec O) /\ ucost c O u = cost c O (lca_rec O).
+Proof. exact single_family_solvers_base. Qed.
+Print Assumptions C10_single_family_base.
+
+(* the root orders the ordered solver computes on a single-family input are exactly [[f]] *)
+Theorem C10_single_family_root_orders : forall f O orders, single_fam f O ->
+  Spfs.root_orders O = Some orders -> forall ord, In ord orders <-> ord = [f].
+Proof. exact single_fam_root_orders. Qed.
+Print Assumptions C10_single_family_root_orders.
+
+Example C10_single_family_example := single_family_example.
+Example C10_unordered_le_ordered_example := unordered_le_ordered_example.
